@@ -6,6 +6,7 @@ import os, subprocess, sys, re, json
 SEED = "/tmp/seed"
 TEMPLATE = open("/verif/lib/seed_prompt_template.txt").read()
 SDP_NOTE = open("/verif/lib/seed_prompt_sdp_note.txt").read()
+C14_NOTE = open("/verif/lib/seed_prompt_c14_note.txt").read()
 
 def prop_text(pid):
     for l in open("/verif/properties.jsonl"):
@@ -28,6 +29,8 @@ def prepare(rnd, ids):
         body = TEMPLATE.replace("{WT}", wt).replace("{OUT}", out).replace("{PROP}", prop_text(pid))
         if pid in ("C17", "C18"):
             body += SDP_NOTE.replace("{WT}", wt)
+        if pid == "C14":
+            body += C14_NOTE.replace("{WT}", wt)
         body += ("\nThe following changes have ALREADY been produced by others; do NOT repeat them or trivial variants of them - find different sites and "
                  "different mechanisms (other files, other functions, other code paths, other input classes, other API entry points):\n" + "\n".join(lst) + "\n")
         os.makedirs(out, exist_ok=True)
